@@ -33,12 +33,28 @@ def check_case(prog, env, pid, want_schedules=True, forms=None, sched_cap=48):
         orders, complete = e2a.schedules_for(r0, cap=sched_cap)
         if not complete:
             cnt['schedule_caps'] = 1
-        for order in orders:
-            sch = world.Schedule('perm', order=order)
-            r = e2a.execute(prog, env, schedule=sch, forms=forms)
-            cnt['executions'] += 1
-            cnt['schedules'] += 1
-            results.append((r, sch.describe()))
+        pairs = set(nat.compared)
+        done = set()
+        for rounds in range(3):
+            new_pairs = set()
+            for order in orders:
+                if tuple(order) in done:
+                    continue
+                done.add(tuple(order))
+                sch = world.Schedule('perm', order=order)
+                r = e2a.execute(prog, env, schedule=sch, forms=forms)
+                cnt['executions'] += 1
+                cnt['schedules'] += 1
+                results.append((r, sch.describe()))
+                new_pairs |= sch.compared - pairs
+            if not new_pairs:
+                break
+            # names that were compared only under another order: close the comparison graph and enumerate again
+            pairs |= new_pairs
+            cnt['schedule_closure_rounds'] = cnt.get('schedule_closure_rounds', 0) + 1
+            orders, c2 = e2a.schedules_for(r0, cap=sched_cap, pairs=pairs)
+            if not c2:
+                cnt['schedule_caps'] = 1
         # all-refused environments: also the solver built without a prompt function
         if not env['answers']:
             r = e2a.execute(prog, env, schedule=world.Schedule('natural'), no_prompt=True, forms=forms)
